@@ -2,6 +2,10 @@ package goag
 
 import (
 	"fmt"
+	"go/ast"
+	"go/parser"
+	"go/token"
+	"go/types"
 	"log"
 	"net/url"
 	"os"
@@ -123,10 +127,56 @@ func (g Generator) Generate(openapi3Spec *openapi3.Swagger, outDir string, packa
 		return fmt.Errorf("create new generator from spec file: %w", err)
 	}
 
-	if gen.Components.LenToRender() > 0 {
-		err := RenderToFile(path.Join(outDir, "components.go"), gen.ComponentsFile(cfg))
+	// render everything first: a clash between generated declarations is an error of the generation,
+	// found before anything is written
+	var rendered []renderedFile
+	render := func(name string, f generator.GoFile) error {
+		src, err := f.Render()
 		if err != nil {
-			return fmt.Errorf("generate components: %w", err)
+			return fmt.Errorf("generate %s: to bytes: %w", name, err)
+		}
+		rendered = append(rendered, renderedFile{name: name, src: []byte(src)})
+		return nil
+	}
+	hasComponents := gen.Components.LenToRender() > 0
+	if hasComponents {
+		if err := render("components", gen.ComponentsFile(cfg)); err != nil {
+			return err
+		}
+	}
+	if g.GenAPIHandler {
+		if err := render("handler.go", gen.HandlerFile(cfg)); err != nil {
+			return err
+		}
+		if err := render("router.go", gen.RouterFile()); err != nil {
+			return err
+		}
+		if err := render("spec_file.go", gen.SpecFile(specRaw)); err != nil {
+			return err
+		}
+	}
+	if g.GenClient {
+		if err := render("client.go", gen.ClientFile(cfg)); err != nil {
+			return err
+		}
+	}
+	if err := checkDeclarations(rendered); err != nil {
+		return err
+	}
+	write := func(name, file string) error {
+		for _, r := range rendered {
+			if r.name == name {
+				if err := WriteToFile(r.src, path.Join(outDir, file)); err != nil {
+					return fmt.Errorf("generate %s: write to file: %w", name, err)
+				}
+			}
+		}
+		return nil
+	}
+
+	if hasComponents {
+		if err := write("components", "components.go"); err != nil {
+			return err
 		}
 	} else {
 		componentsFile := path.Join(outDir, "components.go")
@@ -139,19 +189,10 @@ func (g Generator) Generate(openapi3Spec *openapi3.Swagger, outDir string, packa
 	}
 
 	if g.GenAPIHandler {
-		err = RenderToFile(path.Join(outDir, "handler.go"), gen.HandlerFile(cfg))
-		if err != nil {
-			return fmt.Errorf("generate handler.go: %w", err)
-		}
-
-		err = RenderToFile(path.Join(outDir, "router.go"), gen.RouterFile())
-		if err != nil {
-			return fmt.Errorf("generate router.go: %w", err)
-		}
-
-		err = RenderToFile(path.Join(outDir, "spec_file.go"), gen.SpecFile(specRaw))
-		if err != nil {
-			return fmt.Errorf("generate spec_file.go: %w", err)
+		for _, name := range []string{"handler.go", "router.go", "spec_file.go"} {
+			if err := write(name, name); err != nil {
+				return err
+			}
 		}
 	} else {
 		err = os.Remove(path.Join(outDir, "handler.go"))
@@ -182,12 +223,100 @@ func (g Generator) Generate(openapi3Spec *openapi3.Swagger, outDir string, packa
 		}
 	}
 	if g.GenClient {
-		err = RenderToFile(path.Join(outDir, "client.go"), gen.ClientFile(cfg))
-		if err != nil {
-			return fmt.Errorf("generate client.go: %w", err)
+		if err := write("client.go", "client.go"); err != nil {
+			return err
 		}
 	}
 
+	return nil
+}
+
+type renderedFile struct {
+	name string
+	src  []byte
+}
+
+// checkDeclarations reports two elements of the specification that were given
+// the same Go name (or the name of a predeclared identifier or of an imported
+// package): the package would not compile.
+func checkDeclarations(files []renderedFile) error {
+	declared := map[string]string{}
+	imported := map[string]string{}
+	var order []string
+	for _, rf := range files {
+		f, err := parser.ParseFile(token.NewFileSet(), rf.name, rf.src, parser.SkipObjectResolution)
+		if err != nil {
+			return fmt.Errorf("generate %s: error on format go source: %w", rf.name, err)
+		}
+		for _, im := range f.Imports {
+			p := strings.Trim(im.Path.Value, "\"")
+			local := path.Base(p)
+			if im.Name != nil {
+				local = im.Name.Name
+			}
+			imported[local] = rf.name
+		}
+		add := func(name string) error {
+			if name == "_" {
+				return nil
+			}
+			if prev, ok := declared[name]; ok {
+				return fmt.Errorf("generate %s: %q is declared twice (also in %s): two elements of the specification are given the same Go name", rf.name, name, prev)
+			}
+			declared[name] = rf.name
+			order = append(order, name)
+			return nil
+		}
+		for _, d := range f.Decls {
+			switch d := d.(type) {
+			case *ast.FuncDecl:
+				name := d.Name.Name
+				if d.Recv != nil && len(d.Recv.List) == 1 {
+					t := d.Recv.List[0].Type
+					if st, ok := t.(*ast.StarExpr); ok {
+						t = st.X
+					}
+					if ix, ok := t.(*ast.IndexExpr); ok {
+						t = ix.X
+					}
+					id, ok := t.(*ast.Ident)
+					if !ok {
+						continue
+					}
+					name = id.Name + "." + name
+				}
+				if err := add(name); err != nil {
+					return err
+				}
+			case *ast.GenDecl:
+				for _, sp := range d.Specs {
+					switch sp := sp.(type) {
+					case *ast.TypeSpec:
+						if err := add(sp.Name.Name); err != nil {
+							return err
+						}
+					case *ast.ValueSpec:
+						for _, n := range sp.Names {
+							if err := add(n.Name); err != nil {
+								return err
+							}
+						}
+					}
+				}
+			}
+		}
+	}
+	for _, name := range order {
+		if strings.Contains(name, ".") {
+			continue
+		}
+		if types.Universe.Lookup(name) != nil {
+			return fmt.Errorf("generate %s: %q redeclares a predeclared Go identifier: rename the element of the specification it comes from", declared[name], name)
+		}
+		if in, ok := imported[name]; ok {
+			return fmt.Errorf("generate %s: %q has the name of a package imported by %s: rename the element of the specification it comes from", declared[name], name, in)
+		}
+	}
 	return nil
 }
 
